@@ -5,13 +5,13 @@ CONSTANTS
   PeerLimit = 2
   RingCap = 2
   CacheCap = 1
-  Universe <- UC
+  Universe <- UB
   H0 = 1
-  Peers = {1}
+  Peers = {1, 2, 3}
   Fine = FALSE
   UseRing = TRUE
   MaxWritten = 99
 VIEW View
 INVARIANT Inv
-PROPERTY StepProp
+ACTION_CONSTRAINT Emit
 CHECK_DEADLOCK FALSE
